@@ -50,6 +50,27 @@ def seq_replay(w):
     import numpy as np
     warnings.simplefilter("ignore")
     from ..rt import c10 as rt
+    # hidden state across simulations in one process: a second grid with the same length and end points
+    try:
+        flow = __import__("bluebonnet.flow", fromlist=["x"])
+        for cls_ in (flow.IdealReservoir,):
+            a = cls_(20, 1000.0, 8000.0)
+            a.simulate(np.linspace(0, 2, 60) ** 2)
+            a.simulate(np.linspace(0, 4, 60))
+            x = a.pseudopressure.copy()
+            # independent backward-Euler reference for the second grid
+            tB = np.linspace(0, 4, 60)
+            n_ = 20
+            u = np.ones(n_)
+            for i in range(len(tB) - 1):
+                kk = (tB[i + 1] - tB[i]) * (n_ - 1) ** 2
+                A_ = np.diag(np.full(n_, 1 + 2 * kk)) + np.diag(np.full(n_ - 1, -kk), 1) + np.diag(np.full(n_ - 1, -kk), -1)
+                A_[-1, -1] = 1 + kk
+                u = np.linalg.solve(A_, u)
+            if not np.allclose(x[-1], u, rtol=1e-8, atol=1e-12):
+                return {"reproduced": True, "input": {"sequence": "IdealReservoir(20, ...).simulate(linspace(0,2,60)**2); simulate(linspace(0,4,60))"}, "observed": {"max difference of the last profile to an independent backward-Euler run": float(np.abs(x[-1] - u).max())}, "required": "the field of the latest simulation"}
+    except Exception:  # noqa: BLE001
+        pass
     # hidden state: the same object simulated again after its fluid was replaced must equal a fresh object
     try:
         flow = __import__("bluebonnet.flow", fromlist=["x"])
@@ -92,6 +113,9 @@ def build(ctx):
                         r = o.heap["args"][0]
                         if o.kind == "raise":
                             continue
+                        gw = o.heap["ghost"].get("global_writes", [])
+                        if gw:
+                            return be.Verdict(be.REFUTED, "FRAME", witness={"schedule": sch}, detail=f"simulate() stores into module-level state {sorted(set(map(str, gw)))}: later simulations (of this or any other object) can depend on earlier ones")
                         written = sorted({a for op, a in r.writes})
                         if not set(written) <= {"time", "pseudopressure", "recovery"}:
                             return be.Verdict(be.REFUTED, "FRAME", witness={"schedule": sch}, detail=f"simulate() writes {written}: more than time, pseudopressure and the cache")
